@@ -83,13 +83,10 @@ def tieMask (q : Req) : String :=
       b2i (ellipsoidTie q.nx q.ny q.nz cx cy cz ox oy oz i j k || ellipsoidTie q.nx q.ny q.nz cx cy cz ix iy iz i j k))
   | _ => ""
 
-/-- 1-D weights of `scipy.ndimage.gaussian_filter1d`: `exp(-t²/2σ²)` over `-R … R`, divided by their sum -/
+/-- 1-D weights of `scipy.ndimage.gaussian_filter1d`: the model's `gaussW` (`exp(-0.5/σ²·t²)` over `-R … R`, divided by their
+sum) evaluated with `Float.exp`, tabulated once per request -/
 def gaussTable (sigma : Float) (R : Nat) : Array Float :=
-  let raw : Array Float := (Array.range (2 * R + 1)).map fun t =>
-    let x : Float := (Float.ofNat t) - (Float.ofNat R)
-    Float.exp (-0.5 / (sigma * sigma) * (x * x))
-  let tot := raw.foldl (· + ·) 0.0
-  raw.map (· / tot)
+  ((axis R).map (gaussW Float.exp Float.ofInt sigma R)).toArray
 
 def ratToFloat (q : Rat) : Float := Float.ofInt q.num / Float.ofNat q.den
 
